@@ -1,2 +1,3 @@
 import RoProofs.Gate
 import RoProofs.Script
+import RoProofs.Ops.Basic
